@@ -306,6 +306,8 @@ pub struct Case {
 	pub starts: Vec<usize>,
 	/// Codec.tla: candidate boundaries at which `Silence` is enabled (SilenceOK)
 	pub silent: Vec<usize>,
+	/// Codec.tla AllocBound per frame: largest single allocation request a read of this frame may make
+	pub alloc_max: Vec<usize>,
 }
 
 impl Case {
@@ -327,6 +329,10 @@ impl Case {
 				.iter()
 				.map(|x| x.as_u64().unwrap() as usize)
 				.collect(),
+			alloc_max: v["alloc_max"]
+				.as_array()
+				.map(|a| a.iter().map(|x| x.as_u64().unwrap() as usize).collect())
+				.unwrap_or_default(),
 			silent: {
 				let mut v: Vec<usize> = v["silent"]
 					.as_array()
@@ -537,8 +543,18 @@ pub fn compare(case: &Case, sent: &[Sent], stream: &[u8], out: &RunOut) -> Optio
 								format!("{}: consumed {} not in {}..{}", class, consumed, lo, hi),
 							);
 						}
-						if case.classes[fi] == "refused" && *alloc > REFUSAL_ALLOC_MAX {
-							return mm("alloc", fi, format!("{} bytes requested while refusing", alloc));
+						// "refused without ... allocating the announced body": neither the announced
+						// length nor an announced item count may size an allocation
+						let bound = case.alloc_max.get(fi).cloned().unwrap_or(REFUSAL_ALLOC_MAX);
+						if *alloc > bound {
+							return mm(
+								"alloc",
+								fi,
+								format!(
+									"{} bytes requested in one allocation while refusing a frame of {} body bytes (count field {}, bound {})",
+									alloc, f.body, f.count, bound
+								),
+							);
 						}
 					}
 					Obs::Eof => {
@@ -565,6 +581,16 @@ pub fn compare(case: &Case, sent: &[Sent], stream: &[u8], out: &RunOut) -> Optio
 				errored = true;
 			}
 			_ => return mm("case", fi, format!("bad expectation {}", e)),
+		}
+	}
+	// no read of any frame of this stream may ask the allocator for more than the largest bound
+	if let Some(cap) = case.alloc_max.iter().max() {
+		if out.read.max_alloc > *cap {
+			return mm(
+				"alloc",
+				0,
+				format!("{} bytes requested in one allocation, the frames of the stream allow {}", out.read.max_alloc, cap),
+			);
 		}
 	}
 	// the unread rest must be the tail of what was written
